@@ -58,6 +58,9 @@ func runC02(c *Check, rng *rand.Rand) {
 	cfgs := []cfg{
 		{"default", EnvOpt{Masters: 4}, ""},
 		{"password+replica", EnvOpt{Masters: 3, Replicas: 1, Cfg: ProxyCfg{Password: "p@ss w0rd"}}, "merge"},
+		// slow log on: every sixth reply is held back beyond its threshold, so the proxy
+		// also writes a slow-log entry for requests whose bytes are being compared
+		{"slowlog", EnvOpt{Masters: 4, Cfg: ProxyCfg{SlowLog: 15}}, ""},
 	}
 	if c.Thorough() {
 		cfgs = append(cfgs,
@@ -189,7 +192,11 @@ func c02config(c *Check, seed int64, name string, opt EnvOpt, hs string) {
 					}
 				}
 				plan := script.Plan(string(key))
-				plan.Act = func(r *BReq) Action { return Action{Reply: reply, Chunks: chunks} }
+				var delay time.Duration
+				if name == "slowlog" && rng.Intn(6) == 0 {
+					delay = 25 * time.Millisecond
+				}
+				plan.Act = func(r *BReq) Action { return Action{Reply: reply, Chunks: chunks, Delay: delay} }
 				if rng.Intn(3) == 0 {
 					var sizes []int
 					maxc := 1 + rng.Intn(50)
